@@ -5,8 +5,10 @@ import re
 import vlib
 import tie
 import gen_block
+import blk_e2e
 
-RULE = ("leaf cases: option values (all 1- and 2-byte values, boundary/random 3..5-byte), block "
+RULE = ("end-to-end transfers between a real client and a real server (non-trivial = at least 4 "
+        "datagrams were delivered); leaf cases: option values (all 1- and 2-byte values, boundary/random 3..5-byte), block "
         "size selection, slices at length = k*chunk-1/0/+1 for every size 16..1024, range-array "
         "sequences (all sequences of length <= 5 over 6 block numbers + random with merges and "
         "refusals); non-trivial = the result is not the degenerate one (option refused / empty "
@@ -75,6 +77,68 @@ def leaf(run, model, drv):
     return nbad
 
 
+E2E_WRAPS = ["coap_ticks", "coap_socket_send", "coap_socket_recv"]
+
+
+def e2e_cases(run):
+    r = tie.rng_for(run, "c09-e2e")
+    quick = run.tier == "quick"
+    lines = [l for l in vlib.read_corpus("C09") if l.startswith("e2e ")]
+    lines += gen_block.e2e_boundary(r, full=not quick)
+    lines += gen_block.e2e_small_and_large(r, 12 if quick else 300)
+    lines += gen_block.e2e_mtu(r)
+    bodies = [("b1", 40, 0, 0, 1), ("b2", 40, 0, 0, 1), ("b1", 33, 0, 1, 1), ("b2", 48, 0, 1, 0)]
+    lines += gen_block.e2e_sched_exhaustive(r, ".x2", 5 if quick else 9, bodies[:2 if quick else 4])
+    lines += gen_block.e2e_sched_exhaustive(r, ".xrh", 4 if quick else 7, bodies[2:])
+    lines += gen_block.e2e_sched_random(r, 1500 if quick else 40000)
+    return lines
+
+
+def classify(run, case, fails):
+    """split the oracle's failures into known findings and violations"""
+    viol = []
+    for f in fails:
+        tag = f.split()[0]
+        kf = run.match_known(lambda k: k.get("signature", {}).get("oracle") == tag)
+        if kf:
+            run.known(kf)
+            run.hist("e2e_known", kf["id"])
+        else:
+            viol.append(f)
+    return viol
+
+
+def e2e(run):
+    drv = vlib.build_driver("h_block_e2e", ["h_block_e2e.c"], wraps=E2E_WRAPS)
+    lines = e2e_cases(run)
+    outs, crashes = vlib.run_lines_robust(drv, lines, timeout=1500)
+    run.cov["e2e_driver_crashes"] = len(crashes)
+    nbad = 0
+    for i, (ln, out) in enumerate(zip(lines, outs)):
+        case, fails = blk_e2e.run_oracle(ln, out)
+        blocks = out.count(" RX:")
+        run.count(ln, blocks >= 4)
+        run.hist("e2e_dir", case.dir + ("-con" if case.type == 0 else "-non"))
+        run.hist("e2e_sched", "lossless" if case.lossless() else "faulty")
+        run.hist("e2e_len", "0" if case.len == 0 else "<=1024" if case.len <= 1024 else
+                 "<=8192" if case.len <= 8192 else ">8192")
+        run.hist("e2e_outcome", "delivered" if (" HS:3:" in out and case.dir == "b1") or
+                 (" HC:69:" in out and case.dir == "b2") else "not-delivered")
+        if i % 397 == 5:
+            run.sample({"case": ln, "impl": out[:240] + " ..."})
+        viol = classify(run, case, fails)
+        if viol:
+            nbad += 1
+            if nbad <= 4:
+                run.violation("end-to-end transfer violates the property: " + "; ".join(viol)[:400],
+                              "case: %s\nfailures:\n  %s\ntrace:\n  %s\n" %
+                              (ln, "\n  ".join(viol), out.replace(" ", "\n  ")[:20000]),
+                              tag="e2e%d" % nbad)
+    run.cov["e2e_cases"] = len(lines)
+    run.cov["e2e_violating_cases"] = nbad
+    return nbad
+
+
 def main(run):
     run.cov["trusted_base"] = vlib.TRUSTED_COMMON + [
         "model: Block/BlockOpt.v Block/Slices.v Block/RecBlocks.v (transcriptions of the option "
@@ -87,3 +151,4 @@ def main(run):
     model = vlib.build_model()
     drv = vlib.build_driver("h_block", ["h_block.c"])
     leaf(run, model, drv)
+    e2e(run)
